@@ -91,6 +91,16 @@ def check_call(u, fn, args, self_obj=None, extra_env=None):
         return 'skip', None
     except Exception:
       return 'skip', None
+  # axioms about spec functions: where the case supplies an executable definition, the axiom must
+  # hold for it (an axiom false of its own witness would make every proof from it worthless)
+  for ax in u.get('axioms', []):
+    code, _ = compile_clause(ax)
+    try:
+      okax = eval(code, env)
+    except Exception:
+      continue        # not evaluable natively (ghost state, key outside a map's domain)
+    if not okax:
+      raise RuntimeError('axiom of %s is false of the executable spec function: %s' % (u['name'], ax))
   # old() snapshots
   ens = []
   for i_, e in enumerate(u.get('ensures', [])):
